@@ -61,6 +61,12 @@ var zzWeightJournals = []string{
 		"2020-01-02 \"d1\"\nEquity:Equity Assets:A 1 AAA\nEquity:Equity Assets:A 1 BBB\nEquity:Equity Assets:A 8 CCC\n\n" +
 		"2020-01-03 \"d2\"\nEquity:Equity Assets:A 1 AAA\nEquity:Equity Assets:A 1 BBB\nAssets:A Equity:Equity 2 CCC\n\n" +
 		"2020-01-04 \"d3\"\nEquity:Equity Assets:A 1 AAA\nEquity:Equity Assets:A 1 BBB\nAssets:A Equity:Equity 2 CCC\n",
+	// two commodities of equal value, each spread over three accounts in non-dyadic amounts
+	4: "2020-01-01 open Assets:A\n2020-01-01 open Assets:B\n2020-01-01 open Assets:C\n2020-01-01 open Equity:Equity\n2020-01-01 price AAA 1 CHF\n2020-01-01 price BBB 1 CHF\n2020-01-01 price CCC 1 CHF\n\n" +
+		"2020-01-02 \"buy\"\nEquity:Equity Assets:A 9.51 AAA\nEquity:Equity Assets:B 8.35 AAA\nEquity:Equity Assets:C 8.8 AAA\nEquity:Equity Assets:C 9.51 BBB\nEquity:Equity Assets:A 8.35 BBB\nEquity:Equity Assets:B 8.8 BBB\nEquity:Equity Assets:A 1.07 CCC\nEquity:Equity Assets:B 1.93 CCC\n",
+	// one commodity spread over three accounts in non-dyadic amounts, another of the same total in one account
+	5: "2020-01-01 open Assets:A\n2020-01-01 open Assets:B\n2020-01-01 open Assets:C\n2020-01-01 open Equity:Equity\n2020-01-01 price AAA 1 CHF\n2020-01-01 price BBB 1 CHF\n\n" +
+		"2020-01-02 \"buy\"\nEquity:Equity Assets:A 9.51 AAA\nEquity:Equity Assets:B 8.35 AAA\nEquity:Equity Assets:C 8.8 AAA\nEquity:Equity Assets:A 26.66 BBB\n",
 	// all values different
 	1: "2020-01-01 open Assets:A\n2020-01-01 open Equity:Equity\n2020-01-01 price AAA 2 CHF\n2020-01-01 price BBB 3 CHF\n\n" +
 		"2020-01-02 \"buy\"\nEquity:Equity Assets:A 10 AAA\nEquity:Equity Assets:A 10 BBB\n",
@@ -74,7 +80,7 @@ func VerifWeightsDeterministic() {
 	budget := v.Param("budget")
 	text := zzWeightJournals[v.Param("journal")]
 	alpha := v.Param("alpha") == 1
-	v.MapOrderMax(3)
+	v.MapOrderMax(v.Param("maxentries"))
 	run := func() (string, error) {
 		v.MapOrderSite(site, budget)
 		defer v.MapOrderSite(-1, 0)
